@@ -268,6 +268,24 @@ func (c *vc06Child) canary() error {
 	return nil
 }
 
+// pristine reports whether the child still sees a cluster of exactly itself in state NORMAL
+func (c *vc06Child) pristine() bool {
+	r := c.do("GET", "/status", nil, nil)
+	if r.err != nil || r.status != 200 {
+		return false
+	}
+	var st struct {
+		State string `json:"state"`
+		Nodes []struct {
+			ID string `json:"id"`
+		} `json:"nodes"`
+	}
+	if err := json.Unmarshal(r.body, &st); err != nil {
+		return false
+	}
+	return st.State == "NORMAL" && len(st.Nodes) == 1
+}
+
 func (c *vc06Child) goroutines() string {
 	r := c.do("GET", "/debug/pprof/goroutine?debug=2", nil, nil)
 	if r.err != nil {
@@ -617,8 +635,10 @@ func TestVerifC06_Server(t *testing.T) {
 			fail("the server process died (%v) after the request was answered:\n%s", child.err, child.tail())
 		}
 		if req.kind == "message" {
-			// an accepted message may legitimately change the state of the node; only liveness is judged
-			if cerr != nil || child.canary() != nil {
+			// an accepted message may legitimately change the state of the node (a well-formed ClusterStatus adds a
+			// peer that does not exist, and every later schema change then fails to reach it); only liveness is judged,
+			// and the child is replaced when its view of the cluster is no longer "one node, NORMAL"
+			if cerr != nil || child.canary() != nil || !child.pristine() {
 				if !child.alive() {
 					fail("the server process died (%v) after the message:\n%s", child.err, child.tail())
 				}
